@@ -26,6 +26,9 @@ func NewMiniCluster() *klient.Client {
 		{Group: "apps", Version: "v1", Resource: "deployments"}:   "DeploymentList",
 		{Group: "stable.example.com", Version: "v1", Resource: "crontabs"}: "CronTabList",
 		{Group: "apiextensions.k8s.io", Version: "v1", Resource: "customresourcedefinitions"}: "CustomResourceDefinitionList",
+		// one kind served by two API groups
+		{Group: "alpha.example.com", Version: "v1", Resource: "widgets"}: "WidgetList",
+		{Group: "beta.example.com", Version: "v1", Resource: "widgets"}:  "WidgetList",
 	}
 	c := klient.NewFake(gvrs)
 	// The fake object tracker ignores field selectors; the operator relies on
@@ -83,6 +86,12 @@ func NewMiniCluster() *klient.Client {
 		}},
 		{GroupVersion: "apiextensions.k8s.io/v1", APIResources: []metav1.APIResource{
 			{Kind: "CustomResourceDefinition", Name: "customresourcedefinitions", Verbs: verbs, Group: "apiextensions.k8s.io", Version: "v1", Namespaced: false},
+		}},
+		{GroupVersion: "alpha.example.com/v1", APIResources: []metav1.APIResource{
+			{Kind: "Widget", Name: "widgets", Verbs: verbs, Group: "alpha.example.com", Version: "v1", Namespaced: true},
+		}},
+		{GroupVersion: "beta.example.com/v1", APIResources: []metav1.APIResource{
+			{Kind: "Widget", Name: "widgets", Verbs: verbs, Group: "beta.example.com", Version: "v1", Namespaced: true},
 		}},
 		{GroupVersion: "stable.example.com/v1", APIResources: []metav1.APIResource{
 			{Kind: "CronTab", Name: "crontabs", Verbs: verbs, Group: "stable.example.com", Version: "v1", Namespaced: true},
